@@ -71,6 +71,12 @@ pub trait Adapter: 'static + Sized {
     fn make_poly(spec: &PolySpec, beh: &Beh, rng: &mut ChaCha20Rng) -> Self::P;
     fn make_point(id: i64, beh: &Beh) -> Self::Pt;
 
+    /// Linear codes: universal parameters built through the public constructors with the option
+    /// `check_well_formedness = false` (the default `setup` always switches it on).
+    fn setup_without_wf(_max_degree: usize, _num_vars: Option<usize>, _rng: &mut ChaCha20Rng) -> Option<Self::UP> {
+        None
+    }
+
     /// Variants of a commitment used by the adversary: "drop_shifted", "foreign_shifted"
     /// (shifted part of `other`), "random_comm" (replace the plain part by a random element).
     fn comm_variant(
@@ -993,7 +999,7 @@ impl Adapter for Hyrax {
 }
 
 macro_rules! lincode_adapter {
-    ($name:ident, $pc:ty, $enc:ty, $p:ty, $pt:ty, $sname:expr, $fam:expr, $mkpoly:expr, $mkpt:expr) => {
+    ($name:ident, $pc:ty, $enc:ty, $p:ty, $pt:ty, $sname:expr, $fam:expr, $mkpoly:expr, $mkpt:expr, $nowf:expr) => {
         pub struct $name;
         impl Adapter for $name {
             type F = Fr381;
@@ -1009,6 +1015,9 @@ macro_rules! lincode_adapter {
             }
             fn make_point(id: i64, beh: &Beh) -> Self::Pt {
                 $mkpt(id, beh)
+            }
+            fn setup_without_wf(max_degree: usize, num_vars: Option<usize>, rng: &mut ChaCha20Rng) -> Option<Self::UP> {
+                $nowf(max_degree, num_vars, rng)
             }
             fn comm_variant(
                 kind: &str,
@@ -1202,7 +1211,8 @@ lincode_adapter!(
     "ligero_uni",
     "uni",
     |spec: &PolySpec, _beh: &Beh, rng: &mut ChaCha20Rng| uni_poly::<Fr381>(spec, rng),
-    |id: i64, _beh: &Beh| point_fe::<Fr381>(id)
+    |id: i64, _beh: &Beh| point_fe::<Fr381>(id),
+    |_md: usize, _nv: Option<usize>, _rng: &mut ChaCha20Rng| Some(ark_poly_commit::linear_codes::LigeroPCParams::<Fr381, MTConfig, ColH<Fr381>>::new(128, 4, false, (), (), ()))
 );
 lincode_adapter!(
     LigeroMl,
@@ -1213,7 +1223,8 @@ lincode_adapter!(
     "ligero_ml",
     "ml",
     |spec: &PolySpec, beh: &Beh, rng: &mut ChaCha20Rng| ml_poly::<Fr381>(spec, ml_nv(spec, beh), rng),
-    |id: i64, beh: &Beh| point_vec::<Fr381>(id, nv_of(beh))
+    |id: i64, beh: &Beh| point_vec::<Fr381>(id, nv_of(beh)),
+    |_md: usize, _nv: Option<usize>, _rng: &mut ChaCha20Rng| Some(ark_poly_commit::linear_codes::LigeroPCParams::<Fr381, MTConfig, ColH<Fr381>>::new(128, 4, false, (), (), ()))
 );
 lincode_adapter!(
     Brakedown,
@@ -1224,7 +1235,8 @@ lincode_adapter!(
     "brakedown",
     "ml",
     |spec: &PolySpec, beh: &Beh, rng: &mut ChaCha20Rng| ml_poly::<Fr381>(spec, ml_nv(spec, beh), rng),
-    |id: i64, beh: &Beh| point_vec::<Fr381>(id, nv_of(beh))
+    |id: i64, beh: &Beh| point_vec::<Fr381>(id, nv_of(beh)),
+    |_md: usize, nv: Option<usize>, rng: &mut ChaCha20Rng| nv.map(|n| ark_poly_commit::linear_codes::BrakedownPCParams::<Fr381, MTConfig, ColH<Fr381>>::default(rng, 1 << n, false, (), (), ()))
 );
 
 /// Dispatch a generic function over the scheme name.
